@@ -78,6 +78,7 @@ type Behaviour struct {
 	Procs    map[string]ProcSpec `json:"procs"`
 	Steps    []Step              `json:"steps"`
 	Random   *Random             `json:"random,omitempty"`
+	Frame    *Frame              `json:"frame,omitempty"`
 	Epilogue string              `json:"epilogue"` // drain, close, none
 	Slow     int                 `json:"slow"`     // multiplier for the time limits (confirmation runs)
 }
@@ -238,6 +239,10 @@ func (x *Exec) emit(e sim.Ev) {
 	case "stuck":
 		def("m", "")
 		def("phase", "")
+	case "begin":
+		def("frame", false)
+	case "final", "epilogue":
+		def("reset", false)
 	}
 	x.W.Rec.Emit(e)
 }
